@@ -281,6 +281,26 @@ def op_missing_struct_bound(p, r):
     return op.name, m.name, "missing bound implied by the struct definition"
 
 
+def op_missing_bound_beside_static(p, r):
+    """the same rule with unrelated lifetime slots around the bounded pair: a `'static` (or another free lifetime) in an earlier or later slot
+    must not end the check"""
+    op = first(p, "opaque")
+    if not op:
+        return None
+    if r.random() < 0.5:
+        p.modules[0].items.append(spec.Opaque("LtOp3", lifetimes=["s", "x", "y: 'x"]))
+        use = "LtOp3<'static, 'a, 'b>" if r.random() < 0.7 else "LtOp3<'c, 'a, 'b>"
+    else:
+        p.modules[0].items.append(spec.Opaque("LtOp3", lifetimes=["x", "y: 'x", "s"]))
+        use = "LtOp3<'a, 'b, 'static>" if r.random() < 0.7 else "LtOp3<'a, 'b, 'c>"
+    lts = ["a", "b"] + (["c"] if "'c" in use else [])
+    if r.random() < 0.6:
+        m = add_method(op, "bad_bound3", ("ref", None), [("v", raw("&" + use))], ("unit",), lifetimes=lts)
+    else:
+        m = add_method(op, "bad_bound3", ("ref", "a"), [], raw("Box<%s>" % use), lifetimes=lts)
+    return op.name, m.name, "missing bound implied by the opaque's definition, next to an unrelated ('static) lifetime slot"
+
+
 def op_ordering_param(p, r):
     t, m = pick_method(p, r)
     if not m:
@@ -361,7 +381,7 @@ def op_result_in_result(p, r):
     return op.name, m.name, "Result as the Ok arm of a Result"
 
 
-OPERATORS = [op_ordering_field, op_unit_field, op_write_field, op_option_result_return, op_result_in_result, op_owned_opaque_param, op_opaque_by_value_param, op_opaque_by_value_return, op_opaque_by_value_field, op_opaque_by_value_self,
+OPERATORS = [op_missing_bound_beside_static, op_ordering_field, op_unit_field, op_write_field, op_option_result_return, op_result_in_result, op_owned_opaque_param, op_opaque_by_value_param, op_opaque_by_value_return, op_opaque_by_value_field, op_opaque_by_value_self,
              op_outstruct_param, op_outstruct_self, op_ref_struct_param, op_ref_struct_self, op_box_struct_return, op_ref_prim_param,
              op_result_param, op_result_nested_return, op_result_field, op_std_option_prim_field, op_std_option_enum_field,
              op_std_option_struct_field, op_diplomat_option_ref, op_option_box_param, op_option_opaque_value, op_write_not_last,
